@@ -432,7 +432,7 @@ func (m *Machine) scanOutputs(op string, r wenv.Req, endpoint string) {
 	cls := strings.TrimSuffix(strings.TrimSuffix(op, "_failed"), "_from_untrusted_mint")
 	// the backup is the mnemonic: what a wallet asks a mint to sign in its counter-based flows is derived from it
 	// (independent BIP-39 seed, reference-checked NUT-13) at some counter - else no restore will ever find it
-	if m.Opt.Owns["C19"] && (endpoint == "/v1/mint/bolt11" || (endpoint == "/v1/swap" && (cls == "send" || cls == "receive_plain" || cls == "churn" || cls == "reclaim"))) {
+	if (m.Opt.Owns["C19"] || m.Opt.Owns["C11"]) && (endpoint == "/v1/mint/bolt11" || (endpoint == "/v1/swap" && (cls == "send" || cls == "receive_plain" || cls == "churn" || cls == "reclaim"))) {
 		for _, o := range body.Outputs {
 			c := wh.Inner().GetKeysetCounter(o.Id)
 			found := false
@@ -445,6 +445,7 @@ func (m *Machine) scanOutputs(op string, r wenv.Req, endpoint string) {
 			m.Count["outputs_checked_against_mnemonic"]++
 			if !found {
 				m.Fail("C19", "output_not_derived_from_mnemonic|endpoint="+endpoint+"|flow="+cls, "%s submits output %s.. (keyset %s) for signing that is not the NUT-13 derivation of its mnemonic at any counter up to %d (flow %s)", r.Wallet, o.B_[:14], o.Id, max(c, m.MaxStoredCounter(wh))+64, op)
+				m.Fail("C11", "output_not_derived_from_mnemonic|endpoint="+endpoint+"|flow="+cls, "%s submits output %s.. (keyset %s) for signing that is not the NUT-13 derivation of its mnemonic at any counter up to %d (flow %s)", r.Wallet, o.B_[:14], o.Id, max(c, m.MaxStoredCounter(wh))+64, op)
 				break
 			}
 		}
